@@ -57,7 +57,7 @@ unsigned rd32be() { unsigned a = rd16be(); return (a << 16) | rd16be(); }
 extern "C" int harness_main()
 {
 	int tcp_sport[2] = {0, 0}, tcp_dport[2] = {0, 0};
-	int nudp;
+	int nudp; bool natted_ = false;
 	{
 		config cfg;
 		cfg.mtu = 4;
@@ -66,6 +66,11 @@ extern "C" int harness_main()
 		std::shared_ptr<dropper> drp = std::make_shared<dropper>(2, 2);
 		drp->only_overhead = 40;   // fault TCP segments only
 		cfg.out[AA].append(std::make_shared<tap>(0));
+		// optionally A sits behind a NAT (in front of the hop that drops): the capture still shows A's true address,
+		// also on a retransmission of a segment that came back from behind the NAT
+		bool const natted = vp_choose(2) == 1;
+		natted_ = natted;
+		if (natted) cfg.out[AA].append(std::make_shared<nat>(address(address_v4(0x63636363))));
 		cfg.out[AA].append(std::static_pointer_cast<sink>(drp));
 		cfg.out[BA].append(std::make_shared<tap>(1));
 		long const lat_choice[3] = {1000000L, 1500000000L, 4295000123000L};   // 1 ms, 1.5 s, beyond 2^32 us
@@ -184,5 +189,6 @@ extern "C" int harness_main()
 	vp_assert(g_pos == size, 62);
 	vp_reach(1);
 	if (g_ntx >= nudp + 3) vp_reach(2);
+	if (natted_) vp_reach(3);
 	return 0;
 }
